@@ -80,6 +80,15 @@ def chkDec (useSpec : Bool) (s : DState) (a : List String) : DState × String :=
     let ks := (s.spec.templates.map (·.1)).toArray.qsort keyLt |>.toList
     let expected := "keys " ++ joinOr "," (ks.map fun k => s!"{k.1}:{k.2}")
     (s, if impl == expected then "holds" else s!"fails keys {expected}")
+  | ["tpl", d, i] =>
+    -- the CONTENT of the template in force: element identity (enterprise, id, type, length, name) of every field
+    match d.toNat?, i.toNat? with
+    | some d, some i =>
+      let expected := match s.spec.lookup (d, i) with
+        | some t => "tpl " ++ iesToken t
+        | none => "none"
+      (s, if impl == expected then "holds" else s!"fails keys template-content {(expected.take 160).toString}")
+    | _, _ => (s, "bad-op")
   | _ => (s, "na")
 
 /-- engine "reg": dump of the regenerated registry, for the exhaustive cross-check -/
